@@ -3,6 +3,7 @@ package main
 import (
 	"context"
 	"fmt"
+	"github.com/segmentio/ksuid"
 	"os"
 	"sort"
 	"strings"
@@ -326,6 +327,9 @@ func c16(o Opts) error {
 	res.ModelCases = len(predCases)*(len(vins)+len(ranges)) + len(coqCmp)
 
 	// lake-level differential runs
+	if err := c16Compacted(o, rng, res); err != nil {
+		return err
+	}
 	if err := c16Lake(o, rng, res); err != nil {
 		return err
 	}
@@ -459,6 +463,104 @@ func c16Lake(o Opts, rng *Rng, res *Result) error {
 			})
 		}
 		res.Sample(map[string]any{"lake_case": it, "desc": desc, "stride": stride, "thresh": thresh, "values": len(all), "delete_where": src})
+	}
+	return nil
+}
+
+// c16Compacted: pools whose objects come out of a compaction of large
+// overlapping loads (the sorted writer is then fed from a merge of several
+// objects, in batches whose buffers are recycled), with small seek strides, so
+// that the seek index written during compaction has many entries; narrow key
+// windows that straddle seek-index entries are then queried with pruning and
+// compared with the same filter over all loaded values.
+func c16Compacted(o Opts, rng *Rng, res *Result) error {
+	n := 4
+	if o.Tier == "thorough" {
+		n = 80
+	}
+	for it := 0; it < n; it++ {
+		desc := it%2 == 1
+		stride := Pick(rng, []int{2, 8, 16, 40})
+		env, err := NewLakeEnv()
+		if err != nil {
+			return err
+		}
+		pool, err := env.CreatePool("p", "k", desc, stride, 100000000)
+		if err != nil {
+			return err
+		}
+		var all []string
+		nloads := 2 + rng.Intn(2)
+		per := 130 + rng.Intn(200)
+		base := 1000 + rng.Intn(50)
+		for ld := 0; ld < nloads; ld++ {
+			var sb strings.Builder
+			for i := 0; i < per; i++ {
+				k := base + i*nloads + ld // the loads interleave key by key
+				v := fmt.Sprintf("{k:%d,j:%d,id:%d}", k, i%3, it*100000+ld*10000+i)
+				if i%97 == 5 {
+					v = fmt.Sprintf("{k:null,j:%d,id:%d}", i%3, it*100000+ld*10000+i)
+				}
+				all = append(all, v)
+				sb.WriteString(v + "\n")
+			}
+			if _, err := env.LoadZSON(pool, "main", sb.String()); err != nil {
+				return fmt.Errorf("load: %w", err)
+			}
+		}
+		quiet := NewResult("C16")
+		lr := &LakeRun{API: env.API, Env: env, PoolName: "p", PoolID: pool, Res: quiet}
+		objs, err := lr.Objects("main")
+		if err != nil {
+			return err
+		}
+		var ids []ksuid.KSUID
+		for _, ob := range objs {
+			ids = append(ids, ob.ID)
+		}
+		if _, err := env.API.Compact(context.Background(), pool, "main", ids, false, Msg()); err != nil {
+			return fmt.Errorf("compact: %w", err)
+		}
+		hi := base + per*nloads
+		for q := 0; q < 60; q++ {
+			a := base - 2 + rng.Intn(per*nloads+4)
+			w := 1 + rng.Intn(6)
+			var src string
+			switch q % 5 {
+			case 0:
+				src = fmt.Sprintf("k <= %d and %d < k", a+w, a)
+			case 1:
+				src = fmt.Sprintf("k >= %d and k < %d", a, a+w)
+			case 2:
+				src = fmt.Sprintf("k == %d or k == %d", a, a+w)
+			case 3:
+				src = fmt.Sprintf("k > %d and k <= %d or k == %d", a, a+w, hi-rng.Intn(20))
+			default:
+				src = fmt.Sprintf("k >= %d and k <= %d and j != 1", a, a+w)
+			}
+			got, err := env.Query("from p | where "+src, 1+rng.Intn(3))
+			if err != nil {
+				return fmt.Errorf("lake query %q: %w", src, err)
+			}
+			want, err := RunQuery("where "+src, strings.Join(all, "\n"))
+			if err != nil {
+				return err
+			}
+			res.Evaluations++
+			res.Count("compacted_pool_queries")
+			g, wv := SortedCopy(got), SortedCopy(want)
+			if len(wv) > 0 {
+				res.Distinctly(fmt.Sprintf("compacted:%d:%s", it, src))
+			}
+			if strings.Join(g, "\n") != strings.Join(wv, "\n") {
+				res.Fail(Failure{
+					Kind: "oracle", Sig: "lake-pruned-differs:compacted-pool:window",
+					Detail:   fmt.Sprintf("pool(desc=%v stride=%d) made of %d interleaved loads of %d values, compacted into one run of objects; filter %q: pruned lake query returns %d values, the filter over all loaded values returns %d", desc, stride, nloads, per, src, len(g), len(wv)),
+					Replay:   map[string]any{"desc": desc, "stride": stride, "loads": nloads, "per_load": per, "first_key": base, "key_of_value_i_of_load_l": "first_key + i*loads + l (null when i%97==5)", "then": "compact all objects", "filter": src, "got": g, "want": wv},
+					Expected: strings.Join(wv, " "), Observed: strings.Join(g, " "),
+				})
+			}
+		}
 	}
 	return nil
 }
